@@ -4,6 +4,7 @@ import (
 	"fmt"
 	"go/token"
 	"go/types"
+	"os"
 	"sort"
 	"strings"
 
@@ -212,6 +213,88 @@ func checkUnregister(c *core.Ctx, r *core.Report, a *locks.Analysis) {
 					default:
 						why = "the store is known unused by a test made with the write lock held, and AddEntry refuses a store marked " + flag.Name()
 					}
+				}
+			}
+			// (b') the test-and-mark made by a helper of the store in one critical section of the store's own lock:
+			// the helper is called with the write lock held, answered true on the way to the deletion, and its
+			// summary says: one acquisition of the store's lock, under it the unused-test, where that is known true a
+			// flag of the store is set that AddEntry tests, and `true` is returned only after the flag was set
+			for _, hc := range core.CallsIn(fn) {
+				hcall, ok := hc.(*ssa.Call)
+				if !ok || why != "" {
+					continue
+				}
+				h := hcall.Call.StaticCallee()
+				if h == nil || h.Blocks == nil || core.FnPkgPath(h) != core.FnPkgPath(fn) || len(callsTo(h, unused)) == 0 {
+					continue
+				}
+				if os.Getenv("VERIF_DBG_C11") != "" {
+					fmt.Fprintf(os.Stderr, "DBG cand %s known=%v held=%v\n", h.Name(), core.BoolKnownAt(hcall, ci.Block()), writeHeld(hcall))
+				}
+				if core.BoolKnownAt(hcall, ci.Block()) != core.Yes || !writeHeld(hcall) {
+					continue
+				}
+				hf := a.Facts[h]
+				ownHeld := func(in ssa.Instruction) bool {
+					if hf == nil {
+						return false
+					}
+					for _, hl := range hf.MustAt[in] {
+						if strings.HasSuffix(hl.Class.Name, "SegStore).Lock") {
+							return true
+						}
+					}
+					return false
+				}
+				acq := 0
+				for _, x := range core.CallsIn(h) {
+					if site, ok := a.SiteOf(x); ok && strings.HasSuffix(site.Class.Name, "SegStore).Lock") && site.Op == locks.OpLock {
+						acq++
+					}
+				}
+				var flag *types.Var
+				var flagStore *ssa.Store
+				for _, hb := range h.Blocks {
+					for _, in := range hb.Instrs {
+						st, ok := in.(*ssa.Store)
+						if !ok {
+							continue
+						}
+						fa, ok := st.Addr.(*ssa.FieldAddr)
+						if !ok {
+							continue
+						}
+						if kk, ok := st.Val.(*ssa.Const); !ok || kk.Value == nil || kk.Value.String() != "true" {
+							continue
+						}
+						tested := false
+						for _, uc := range callsTo(h, unused) {
+							if core.BoolKnownAt(uc, hb) == core.Yes && ownHeld(uc) {
+								tested = true
+							}
+						}
+						if tested && ownHeld(st) {
+							flag, flagStore = core.FieldOfAddr(fa), st
+						}
+					}
+				}
+				if os.Getenv("VERIF_DBG_C11") != "" {
+					fmt.Fprintf(os.Stderr, "DBG helper %s acq=%d flag=%v known=%v\n", h.Name(), acq, flag, core.BoolKnownAt(hcall, ci.Block()))
+				}
+				if acq != 1 || flag == nil {
+					continue
+				}
+				allAfter := true
+				for _, ret := range core.Returns(h) {
+					if kk, ok := core.RetResult(ret, 0).(*ssa.Const); ok && kk.Value != nil && kk.Value.String() == "false" {
+						continue
+					}
+					if !core.InstrDominates(flagStore, ret) {
+						allAfter = false
+					}
+				}
+				if allAfter && addEntryTests(c, a, flag) {
+					why = "the store is tested and marked " + flag.Name() + " by " + h.Name() + " in one critical section of its own lock, called with the write lock held; AddEntry refuses a marked store"
 				}
 			}
 			for _, call := range callsTo(fn, flush) {
